@@ -182,6 +182,22 @@ def _inv_requires(S, a):
     return invariant(S, a.self, a.ghost)
 
 
+def _needed_wait(obj, cname, me):
+    """wait_for wrapper: a thread goes to sleep only when its wait predicate is really false (blocks only if needed)"""
+    base_of = lambda: MON.wait_handler(lambda eng, st: st.env[obj], me)
+
+    def h(eng, args, kw, st, fr, k, node):
+        o = eng.resolve(st.env[obj], st.heap)
+        if cname == "_write_condition" and o.max_messages is not PINF:
+            eng.oblige("backpressure", "a sender sleeps only when the buffer is full (and the mailbox is not killed)", st,
+                       z3.And(o._mailbox.size >= o.max_messages, z3.Not(o.killed)), node)
+        if cname == "_fetch_new_condition":
+            eng.oblige("backpressure", "the fetcher sleeps only when the fetch gate is closed", st,
+                       z3.Not(can_fetch_spec(o)), node)
+        return base_of()(eng, args, kw, st, fr, k, node)
+    return h
+
+
 def mon_calls(obj="self", me=None, extra=None):
     ref_of = lambda eng, st: st.env[obj]
     calls = {
@@ -189,8 +205,8 @@ def mon_calls(obj="self", me=None, extra=None):
         f"{obj}._write_condition.notify_all": MON.notify_handler("_write_condition"),
         f"{obj}._fetch_new_condition.notify_all": MON.notify_handler("_fetch_new_condition"),
         f"{obj}._read_condition.wait_for": MON.wait_handler(ref_of, me),
-        f"{obj}._write_condition.wait_for": MON.wait_handler(ref_of, me),
-        f"{obj}._fetch_new_condition.wait_for": MON.wait_handler(ref_of, me),
+        f"{obj}._write_condition.wait_for": _needed_wait(obj, "_write_condition", me),
+        f"{obj}._fetch_new_condition.wait_for": _needed_wait(obj, "_fetch_new_condition", me),
         f"{obj}.log.debug": Abstract(sort=None),
     }
     calls.update(extra or {})
@@ -339,6 +355,25 @@ def _sender_me(st):
     return ("sender", st.ghost["my_number"])
 
 
+def _send_exc(S, a, exc):
+    """precision of send's own refusals (state at the raise)"""
+    o = a.self
+    if exc.origin != "stmt":
+        return []
+    if exc.cls == "InvalidMessageNumber":
+        num = a.local.msg_number
+        numi = S.to_int(num)
+        return [("a message number is refused only if it is not an integer or every subscriber has already read past it",
+                 S.Or(S.Not(S.int_valued(num)),
+                      S.And(nsub(o) == 0, numi <= -1),
+                      S.And(nsub(o) > 0, z3.ForAll([_s], z3.Implies(z3.And(0 <= _s, _s < nsub(o)), numi <= R(o, _s))))))]
+    if exc.cls == "MailBoxAlreadyClosed":
+        return [("refused as closed only if closed", o.closed)]
+    if exc.cls == "MailboxKilled":
+        return [("MailboxKilled only from a force-killed mailbox, carrying the recorded reason", S.And(o.force_killed, o.killed))]
+    return []
+
+
 def _send(T, tag, lazy):
     def requires(S, a):
         cl = _inv_requires(S, a) + [
@@ -358,9 +393,13 @@ def _send(T, tag, lazy):
         ensures=lambda S, a, r: [("on return the mailbox is killed (message dropped) or the message is part of the history",
                                   S.Or(a.self.killed, S.And(
                                       z3.Select(a.ghost.Sent, S.to_int(a.local.msg_number)),
-                                      z3.Select(a.ghost.SentMsg, S.to_int(a.local.msg_number)) == a.msg)))],
+                                      z3.Select(a.ghost.SentMsg, S.to_int(a.local.msg_number)) == a.msg))),
+                                 ("implicit numbering stays usable: every number sent lies below the send counter again",
+                                  S.Implies(S.is_none(a.msg_number),
+                                            z3.ForAll([_n], z3.Implies(z3.Select(a.ghost.Sent, _n), _n < a.self._n_sent))))],
         raises={"MailBoxAlreadyClosed": lambda S, a: S.true, "MailboxKilled": lambda S, a: S.true,
                 "InvalidMessageNumber": lambda S, a: S.true, "MailboxFullTimeout": lambda S, a: S.true},
+        exc_ensures=_send_exc,
         ghost=GHOST0,
         with_handler=MON.with_handler(_lock_of, me=_sender_me),
         calls=mon_calls(me=_sender_me),
@@ -527,6 +566,8 @@ def _read_wait(eng, args, kw, st, fr, k, node):
     me = st.env["subscriber_i"]
     eng.oblige("demand", "a reader publishes the message number it waits for before it sleeps", st,
                W(o, me) == int2v(eng.to_int(st.env["next_number"])), node)
+    eng.oblige("backpressure", "a reader sleeps only when its next message is not there (and the mailbox is not killed)", st,
+               z3.And(z3.Not(o._mailbox.has(eng.to_int(st.env["next_number"]))), z3.Not(o.killed)), node)
     return MON.wait_handler(lambda e_, s_: s_.env["self"], _reader_me)(eng, args, kw, st, fr, k, node)
 
 
@@ -631,7 +672,7 @@ def _send_from(T, tag, lazy):
         return contract_call(eng, can_fetch, [st.env["self"]], {}, st, fr, after, node)
 
     def wait_gate(eng, args, kw, st, fr, k, node):
-        base = MON.wait_handler(lambda e_, s_: s_.env["self"], None)
+        base = _needed_wait("self", "_fetch_new_condition", None)
         def after(r, s2):
             return k(r, St(s2.env, s2.heap, s2.pc, {**s2.ghost, "gate": eng.truth(r)}))
         return base(eng, args, kw, st, fr, after, node)
